@@ -70,6 +70,12 @@ def swarm(seed, tier, profile="general"):
         cfg["cond_max"] = 10 ** r.uniform(0.5, 3.5)
         # the law must hold at every natural scale (tolerances are relative): tiny and large covariances
         cfg["scale"] = 10 ** r.uniform(-9, 3) if r.coin(0.5) else 1.0
+        if cfg["scale"] != 1.0:
+            # operations that add O(1) offsets (b of a linear image, conditioning points, conditional means)
+            # would put means many standard deviations from the origin at tiny scales, where the information
+            # form cancels catastrophically (floating-point limit): scaled runs keep to scale-preserving operations
+            for k in ("linear_sum", "cond_x", "affine", "multiply"):
+                wts[k] = 0.0
     cfg["weights"] = wts
     roots = []
     for grp, p in ((FACTOR_ROOTS, 0.8), (MEASURE_ROOTS, 0.8), (PDF_ROOTS, 0.8), (COND_ROOTS, 0.6)):
